@@ -712,6 +712,13 @@ pub fn items(prop: &str, tier: &str) -> Vec<Item> {
                         c("resolve_nofollow").path("a/b/lnk"), Op::new("proc_open").base("self").path("exe").flags(O_RDONLY | O_NOFOLLOW | O_PATH).capi(), Op::new("proc_open").base("thread-self").path("fd/3").flags(O_PATH).capi()]); }
                     for op in ops { f.push(Scenario { name: format!("errno:{}/{}", b, op.brief()), backend: b.into(), op, path: String::new() }); }
                 }
+                // the same for a caller whose /proc is not a procfs (the error-formatting reads fail there and must not disturb the errno)
+                for s in f.iter().filter(|s| s.backend == "K" && matches!(s.op.name.as_str(), "resolve" | "open_subpath" | "mkdir_all" | "readlink")).cloned() {
+                    let mut it = item(s, Plan::Fault { bound: 1, cfg: FaultCfg { all_syscalls: th, per_class: if th { 7 } else { 3 }, eagain_runs: vec![], exhaustion: false, custom: None } }, if th { 40_000 } else { 2_500 });
+                    it.scen.name = format!("tmpfs-proc:{}", it.scen.name);
+                    it.proc_opts = Some("TMPFS".into());
+                    v.push(it);
+                }
                 for s in f.into_iter().step_by(if th { 1 } else { 2 }) { v.push(item(s, Plan::Fault { bound: 1, cfg: FaultCfg { all_syscalls: th, per_class: if th { 7 } else { 2 }, eagain_runs: vec![], exhaustion: false, custom: None } }, if th { 40_000 } else { 2_500 })); }
             }
             // C-API lookups: safety violations from EAGAIN storms (kernel backend) and from attacker schedules (emulated backend)
@@ -732,7 +739,7 @@ pub fn items(prop: &str, tier: &str) -> Vec<Item> {
                 if th { v.push(vec!["e/m/n", "e/m/n", "e/m/n/o"]); v.push(vec!["up/a/b/q/r", "a/b/q/r/s"]); v.push(vec!["a/b/c/d/k", "a/b/lnk/k"]); }
                 v
             } else {
-                let mut v = vec![vec!["a", "a"], vec!["a", "a/b/c"], vec!["a/b/c", "a"], vec!["a/b", "a/b"], vec!["e", "e"]];
+                let mut v = vec![vec!["a", "a"], vec!["a", "a/b/c"], vec!["a/b/c", "a"], vec!["a/b", "a/b"], vec!["e", "e"], vec!["e/f", "e/f"], vec!["a/b/lnk", "a/b/lnk"]];
                 if th { v.push(vec!["a", "a", "a/b"]); v.push(vec!["a/b/lnk", "a/b"]); v.push(vec!["abs/c", "a/b/c"]); }
                 v
             };
@@ -1087,7 +1094,8 @@ fn judge(prop: &str, it: &Item, scen: &Scenario, w: &World, eo: &ExecOut, counts
                             else if let Some((i, f)) = eo.faults.first() {
                                 if !f.starts_with("EAGAIN") && !f.starts_with("EXHAUST") && eo.faults.len() == 1 && BASELINE_OK.load(std::sync::atomic::Ordering::Relaxed) == 1 {
                                     let inj = eo.events.get(*i).and_then(|e| e.injected).unwrap_or(0);
-                                    let later_real: BTreeSet<i64> = eo.events.iter().skip(*i + 1).filter(|e| e.injected.is_none() && e.rval < 0 && e.rval > -4096).map(|e| -e.rval).collect();
+                                    // (the error-formatting probes - absolute /proc/... reads - are not what ended the operation)
+                                    let later_real: BTreeSet<i64> = eo.events.iter().skip(*i + 1).filter(|e| e.injected.is_none() && e.rval < 0 && e.rval > -4096 && !e.path.as_deref().map(|p| p.starts_with("/proc/")).unwrap_or(false)).map(|e| -e.rval).collect();
                                     if inj != 0 && ce.errno as i32 != inj && ce.errno as i32 != libc::EXDEV && !later_real.contains(&(ce.errno as i64)) {
                                         v.push((format!("errno-of-failing-syscall:{}:{}->{}", eo.events.get(*i).map(|e| e.name.clone()).unwrap_or_default(), f, errname(ce.errno as i32)), format!("the call succeeds undisturbed; syscall {} was made to fail with {}, the call failed, no later system call failed with {}, yet errorinfo reports errno {} ({})", eo.events.get(*i).map(|e| e.brief()).unwrap_or_default(), f, errname(ce.errno as i32), errname(ce.errno as i32), ce.desc.chars().take(240).collect::<String>())));
                                     }
